@@ -29,8 +29,8 @@ def main():
         import traceback
         tb = traceback.format_exc()
         sys.stderr.write(tb)
-        frames = [f for f in traceback.extract_tb(e.__traceback__) if '/repo/' in f.filename]
-        site = '%s:%s' % (frames[-1].filename.split('/repo/')[-1], frames[-1].name) if frames else 'harness'
+        frames = [f for f in traceback.extract_tb(e.__traceback__) if (vlib.REPO + '/') in f.filename]
+        site = '%s:%s' % (frames[-1].filename.split(vlib.REPO + '/')[-1], frames[-1].name) if frames else 'harness'
         ctx.report('check', 'check aborted by %s at %s' % (type(e).__name__, site), {},
                    dict(theorem='the run of %s %s did not complete' % (prop, tier), exception=repr(e)[:300], traceback=tb[-1500:]),
                    found_input=False)
